@@ -71,8 +71,23 @@ Proof.
   - destruct e; unfold dirs in *; simpl; [constructor; [apply grows_refl | exact IH] | exact IH].
 Qed.
 
+Lemma prepass_step_gen_dirs : forall keep w k, dirs (prepass_step_gen keep w k) = dirs w.
+Proof. intros; unfold prepass_step_gen; destruct (_ && _); [apply dirs_unlink | reflexivity]. Qed.
 Lemma prepass_step_dirs : forall w k, dirs (prepass_step w k) = dirs w.
-Proof. intros; unfold prepass_step; destruct (_ && _); [apply dirs_unlink | reflexivity]. Qed.
+Proof. intros; apply prepass_step_gen_dirs. Qed.
+Lemma prepass0_dirs : forall o w, dirs (prepass0 w o) = dirs w.
+Proof.
+  unfold prepass0; induction o; intros; simpl; [reflexivity|]. rewrite IHo; apply prepass_step_gen_dirs.
+Qed.
+(* the first loop removes links only, and only yielded ones *)
+Lemma prepass_step_cases : forall w x,
+  prepass_step w x = w \/ (yielded w x = true /\ is_link w x = true /\ loadable w x = true /\ prepass_step w x = unlink x w).
+Proof.
+  intros w x. unfold prepass_step, prepass_step_gen. cbn [negb orb].
+  destruct (yielded w x); cbn [andb]; [|left; reflexivity].
+  destruct (is_link w x); cbn [andb]; [|left; reflexivity].
+  destruct (loadable w x); [right; repeat split; reflexivity | left; reflexivity].
+Qed.
 Lemma prepass_dirs : forall o w, dirs (prepass w o) = dirs w.
 Proof.
   unfold prepass; induction o; intros; simpl; [reflexivity|]. rewrite IHo; apply prepass_step_dirs.
@@ -111,7 +126,9 @@ Theorem run_preserves : forall rep fx cl o1 o2 w, Forall2 grows (dirs w) (dirs (
 Proof.
   intros; unfold run.
   destruct (cl && (negb rep || fx)).
-  - rewrite <- (prepass_dirs o1 w) at 1. apply mainpass_dirs.
+  - destruct rep.
+    + rewrite <- (prepass_dirs o1 w) at 1. apply mainpass_dirs.
+    + rewrite <- (prepass0_dirs o1 w) at 1. apply mainpass_dirs.
   - apply mainpass_dirs.
 Qed.
 
@@ -811,9 +828,8 @@ Proof. intros d' [[C _] _]. unfold core in C. inversion C. split; congruence. Qe
 
 Lemma prepass_step_P1 : forall w x, wf w -> P1 w -> wf (prepass_step w x) /\ P1 (prepass_step w x).
 Proof.
-  intros w x Hw (Lk & Ln & U). unfold prepass_step.
-  destruct (yielded w x && is_link w x) eqn:E; [|split; [exact Hw | repeat split; assumption]].
-  apply andb_true_iff in E; destruct E as [_ El].
+  intros w x Hw (Lk & Ln & U).
+  destruct (prepass_step_cases w x) as [->|(_ & El & _ & ->)]; [split; [exact Hw | repeat split; assumption]|].
   split; [apply wf_unlink; exact Hw|]. split; [apply lookup_unlink_dir; exact Lk|]. split.
   - destruct Ln as [Ln|Ln]; [left; apply lookup_unlink_none; exact Ln|].
     destruct (key_eqb x n) eqn:E.
@@ -1095,7 +1111,7 @@ Proof. reflexivity. Qed.
 (* ------------------------------------------------------------------ 3'. --cleanup: a second call changes nothing (shape hypotheses) *)
 (* every link points directly at a job directory (with its params.json): what the repair itself creates *)
 Definition direct (w : ws) : Prop :=
-  forall x t, lookup x w = Some (Link t) -> exists dt, lookup t w = Some (Dir dt) /\ d_params dt = true.
+  forall x t, lookup x w = Some (Link t) -> exists dt, lookup t w = Some (Dir dt) /\ d_params dt = true /\ d_recomp dt <> None.
 (* no directory sits on the new path of another one *)
 Definition clear (w : ws) : Prop := forall k d n, active w k d n -> forall dn, lookup n w <> Some (Dir dn).
 Definition nolinks (w : ws) : Prop := forall x t, lookup x w <> Some (Link t).
@@ -1111,23 +1127,22 @@ Qed.
 
 Lemma prepass_step_dir_rev : forall w y x d, wf w -> lookup x (prepass_step w y) = Some (Dir d) -> lookup x w = Some (Dir d).
 Proof.
-  intros w y x d Hw. unfold prepass_step. destruct (yielded w y && is_link w y) eqn:E; [|auto].
-  apply andb_true_iff in E; destruct E as [_ El]. intros H.
+  intros w y x d Hw. destruct (prepass_step_cases w y) as [->|(_ & El & _ & ->)]; [auto|]. intros H.
   destruct (key_eqb x y) eqn:E.
   - apply key_eqb_eq in E; subst. rewrite lookup_unlink_self in H by assumption. discriminate.
   - apply key_eqb_neq in E. rewrite lookup_unlink_other in H by exact E. exact H.
 Qed.
 Lemma prepass_step_link_rev : forall w y x t, lookup x (prepass_step w y) = Some (Link t) -> lookup x w = Some (Link t).
 Proof.
-  intros w y x t. unfold prepass_step. destruct (yielded w y && is_link w y); [|auto]. intros H.
+  intros w y x t. destruct (prepass_step_cases w y) as [->|(_ & _ & _ & ->)]; [auto|]. intros H.
   destruct (key_eqb x y) eqn:E.
   - apply key_eqb_eq in E; subst. exfalso. exact (lookup_unlink_self_nolink _ _ _ H).
   - apply key_eqb_neq in E. rewrite lookup_unlink_other in H by exact E. exact H.
 Qed.
 Lemma prepass_step_dir : forall w y x d, lookup x w = Some (Dir d) -> lookup x (prepass_step w y) = Some (Dir d).
-Proof. intros w y x d H. unfold prepass_step. destruct (_ && _); [apply lookup_unlink_dir|]; exact H. Qed.
+Proof. intros w y x d H. unfold prepass_step, prepass_step_gen. destruct (_ && _); [apply lookup_unlink_dir|]; exact H. Qed.
 Lemma wf_prepass_step : forall w y, wf w -> wf (prepass_step w y).
-Proof. intros w y H. unfold prepass_step. destruct (_ && _); [apply wf_unlink|]; exact H. Qed.
+Proof. intros w y H. unfold prepass_step, prepass_step_gen. destruct (_ && _); [apply wf_unlink|]; exact H. Qed.
 Lemma wf_prepass : forall o w, wf w -> wf (prepass w o).
 Proof. unfold prepass; induction o; intros w H; simpl; [exact H | apply IHo, wf_prepass_step, H]. Qed.
 Lemma direct_prepass_step : forall w y, direct w -> direct (prepass_step w y).
@@ -1144,10 +1159,12 @@ Proof.
 Qed.
 Lemma prepass_step_removes : forall w y t, wf w -> direct w -> lookup y w = Some (Link t) -> lookup y (prepass_step w y) = None.
 Proof.
-  intros w y t Hw Hd L. destruct (Hd y t L) as (dt & Lt & Pt). unfold prepass_step.
+  intros w y t Hw Hd L. destruct (Hd y t L) as (dt & Lt & Pt & Rt). unfold prepass_step, prepass_step_gen.
   assert (Y : yielded w y = true) by (unfold yielded; rewrite (resolve_link _ _ _ _ L Lt); exact Pt).
   assert (I : is_link w y = true) by (unfold is_link; rewrite L; reflexivity).
-  rewrite Y, I. simpl. apply lookup_unlink_self; assumption.
+  assert (Ld : loadable w y = true).
+  { unfold loadable. rewrite (resolve_link _ _ _ _ L Lt). destruct (d_recomp dt); [reflexivity|contradiction]. }
+  rewrite Y, I, Ld. simpl. apply lookup_unlink_self; assumption.
 Qed.
 Lemma prepass_nolink_at : forall o w x t, wf w -> direct w -> In x o -> lookup x (prepass w o) <> Some (Link t).
 Proof.
@@ -1329,7 +1346,7 @@ Lemma prepass_nolinks_id : forall o w, nolinks w -> prepass w o = w.
 Proof.
   unfold prepass; induction o; intros w H; simpl; [reflexivity|].
   assert (E : prepass_step w a = w).
-  { unfold prepass_step, is_link. destruct (lookup a w) as [[d|t]|] eqn:L; try (rewrite andb_false_r; reflexivity). exfalso; exact (H a t L). }
+  { unfold prepass_step, prepass_step_gen, is_link. destruct (lookup a w) as [[d|t]|] eqn:L; try (rewrite andb_false_r; reflexivity). exfalso; exact (H a t L). }
   rewrite E. apply IHo; exact H.
 Qed.
 
@@ -1370,8 +1387,8 @@ Proof.
     destruct (key_eqb (mkkey 9 9 9) k) eqn:E4; [apply key_eqb_eq in E4; inversion H; auto 6 | discriminate]. }
   split; [exact H1|]. split; [|split; [|split; [|exact Hc]]].
   - intros x t L. destruct (K _ _ L) as [[_ E]|[[_ E]|[[-> E]|[-> E]]]]; try discriminate; inversion E; subst.
-    + exists e_d2; split; reflexivity.
-    + exists e_d1; split; reflexivity.
+    + exists e_d2; split; [reflexivity|split; [reflexivity|discriminate]].
+    + exists e_d1; split; [reflexivity|split; [reflexivity|discriminate]].
   - intros k d n A dn L. destruct A as (Lk & _ & R & _).
     destruct (K _ _ Lk) as [[-> E]|[[-> E]|[[_ E]|[_ E]]]]; try discriminate; inversion E; subst; simpl in R; inversion R; subst; simpl in L; discriminate.
   - intros k e L. destruct (K _ _ L) as [[-> _]|[[-> _]|[[-> _]|[-> _]]]]; simpl; auto.
@@ -1800,3 +1817,413 @@ Lemma cleanup_moves_former_path :
   lookup xk (fix_ws true true [] [xk] xw) = None /\ lookup xn (fix_ws true true [] [xk] xw) <> None /\
   exists d', lookup xk (fix_ws true false [] [xk] xw) = Some (Dir d').
 Proof. split; [reflexivity|]. split; [discriminate|]. eexists. reflexivity. Qed.
+
+Open Scope Z_scope.
+(* =========================================================================================
+   Interrupted repairs (model/Deprecate.v `partials`, `interrupted`).                       *)
+
+(* ---- what an interruption inside the iteration on x can leave *)
+Lemma partials_cases : forall cl w x wi, In wi (partials cl w x) ->
+  exists dx nx, active w x dx nx /\
+    (wi = pre w nx \/
+     (resolve (pre w nx) nx = None /\
+      ((cl = true /\ wi = update_dir x (alias (k_name x) (k_name nx)) (pre w nx)) \/
+       (cl = false /\ wi = add_link nx x (pre w nx))))).
+Proof.
+  intros cl w x wi. unfold partials.
+  destruct (yielded w x) eqn:Y; cbn [negb]; [|intros []].
+  destruct (lookup x w) as [[dx|t]|] eqn:L; [|intros []|intros []].
+  destruct (d_recomp dx) as [nx|] eqn:R; [|intros []].
+  destruct (k_id nx =? k_id x) eqn:E; [intros []|].
+  assert (A : active w x dx nx).
+  { repeat split; try assumption; [rewrite (yielded_dir _ _ _ L) in Y; exact Y|apply Z.eqb_neq; exact E]. }
+  fold (pre w nx). intros Hin. exists dx, nx. split; [exact A|].
+  destruct (resolve (pre w nx) nx) as [[k' dn]|] eqn:RS.
+  - destruct Hin as [<-|[]]. left; reflexivity.
+  - destruct cl; destruct Hin as [<-|[<-|[]]]; try (left; reflexivity); right; split; auto.
+Qed.
+
+(* ---- a modification that concerns the entry x only *)
+Definition benign (n x : key) (w w' : ws) : Prop :=
+  wf w' /\
+  (forall y dy, y <> x -> lookup y w = Some (Dir dy) -> lookup y w' = Some (Dir dy)) /\
+  (lookup n w = None -> lookup n w' = None) /\
+  (forall t, lookup n w = Some (Link t) -> exists_ w n = true -> lookup n w' = Some (Link t)) /\
+  (forall y dy', lookup y w' = Some (Dir dy') ->
+     exists z dz, lookup z w = Some (Dir dz) /\ core dz = core dy' /\ (z = y \/ z = x)).
+
+Lemma unc_benign : forall n x t w w', benign n x w w' -> x <> t -> unc n t w -> unc n t w'.
+Proof.
+  intros n x t w w' (_ & _ & _ & _ & B4) Hx U y dy' L R.
+  destruct (B4 y dy' L) as (z & dz & Lz & C & Hz).
+  assert (Rz : d_recomp dz = Some n) by (unfold core in C; inversion C; congruence).
+  pose proof (U z dz Lz Rz) as E. destruct Hz as [-> | ->]; [exact E|contradiction].
+Qed.
+
+Lemma benign_P1 : forall k d n x w w', benign n x w w' -> x <> k -> P1 k d n w -> P1 k d n w'.
+Proof.
+  intros k d n x w w' B Hx (Lk & Ln & U). pose proof B as (_ & B1 & B2 & B3 & _).
+  split; [apply B1; [congruence|exact Lk]|]. split.
+  - destruct Ln as [Ln|Ln]; [left; apply B2; exact Ln|right; apply (B3 k Ln)].
+    unfold exists_. rewrite (resolve_link _ _ _ _ Ln Lk). reflexivity.
+  - eapply unc_benign; eauto.
+Qed.
+Lemma benign_P2 : forall k d n x w w', benign n x w w' -> x <> k -> P2 k d n w -> P2 k d n w'.
+Proof.
+  intros k d n x w w' B Hx (d' & Lk & Ln & G & U). pose proof B as (_ & B1 & _ & B3 & _).
+  exists d'. split; [apply B1; [congruence|exact Lk]|]. split.
+  - apply (B3 k Ln). unfold exists_. rewrite (resolve_link _ _ _ _ Ln Lk). reflexivity.
+  - split; [exact G|]. eapply unc_benign; eauto.
+Qed.
+Lemma benign_P3 : forall k d n x w w', benign n x w w' -> x <> n -> P3 k d n w -> P3 k d n w'.
+Proof.
+  intros k d n x w w' B Hx (d' & Ln & G & U). pose proof B as (_ & B1 & _ & _ & _).
+  exists d'. split; [apply B1; [congruence|exact Ln]|]. split; [exact G|]. eapply unc_benign; eauto.
+Qed.
+
+(* the three kinds of partial states are benign *)
+Lemma benign_pre : forall n x w nx, wf w -> nx <> n -> benign n x w (pre w nx).
+Proof.
+  intros n x w nx Hw Hn. split; [apply wf_pre; exact Hw|].
+  split; [intros y dy _ L; apply pre_dir; exact L|].
+  split; [intros L; rewrite pre_other by congruence; exact L|].
+  split; [intros t L _; rewrite pre_other by congruence; exact L|].
+  intros y dy' L. exists y, dy'. split; [eapply pre_dir_rev; eauto|]. split; [reflexivity|left; reflexivity].
+Qed.
+Lemma benign_link : forall n x w dx nx, wf w -> active w x dx nx -> nx <> n -> benign n x w (act false false w x nx).
+Proof.
+  intros n x w dx nx Hw A Hn. split; [apply wf_act; exact Hw|].
+  split; [intros y dy Hy L; apply (frame_dir false false w x nx y dy L Hy)|].
+  split; [intros L; apply (frame_none false false w x dx nx A n L); congruence|].
+  split; [intros t L E; apply (frame_link false false w x dx nx A n t L E)|].
+  intros y dy' L. destruct (frame_rev false false w x dx nx A y dy' Hw L) as (z & dz & Lz & [C _] & Hz).
+  exists z, dz. split; [exact Lz|]. split; [exact C|]. destruct Hz as [->|[-> _]]; [left|right]; reflexivity.
+Qed.
+Lemma benign_alias : forall n x w nx a b, wf w -> nx <> n -> x <> n -> benign n x w (update_dir x (alias a b) (pre w nx)).
+Proof.
+  intros n x w nx a b Hw Hn Hxn. split; [apply wf_update_dir, wf_pre; exact Hw|].
+  split; [intros y dy Hy L; rewrite lookup_update_other by exact Hy; apply pre_dir; exact L|].
+  split; [intros L; rewrite lookup_update_other by congruence; rewrite pre_other by congruence; exact L|].
+  split; [intros t L _; rewrite lookup_update_other by congruence; rewrite pre_other by congruence; exact L|].
+  intros y dy' L. rewrite lookup_update_dir in L. destruct (key_eqb x y) eqn:E.
+  - apply key_eqb_eq in E; subst y. destruct (lookup x (pre w nx)) as [[d0|t]|] eqn:L0; try discriminate.
+    inversion L; subst dy'. exists x, d0. split; [eapply pre_dir_rev; eauto|]. split; [symmetry; apply alias_core|left; reflexivity].
+  - exists y, dy'. split; [eapply pre_dir_rev; eauto|]. split; [reflexivity|left; reflexivity].
+Qed.
+Lemma act_link_partial : forall w x nx, resolve (pre w nx) nx = None -> add_link nx x (pre w nx) = act false false w x nx.
+Proof. intros w x nx R. unfold act. rewrite R. reflexivity. Qed.
+
+Section Interrupted.
+Variables (cl : bool) (k : key) (d : data) (n : key).
+Hypothesis Hp : d_params d = true.
+Hypothesis Hr : d_recomp d = Some n.
+Hypothesis Hi : k_id n <> k_id k.
+
+(* the situation of the job (k, stored under a former identifier; n, its new path) in a workspace: not yet repaired,
+   linked, or moved - for some content d1 of the directory that has grown from d *)
+Definition inv (w : ws) : Prop :=
+  exists d1, grows d d1 /\ (In (k_name k) (d_done d) -> In (k_name k) (d_done d1)) /\
+             (P1 k d1 n w \/ P2 k d1 n w \/ (cl = true /\ P3 k d1 n w)).
+
+Lemma grows_hyps : forall d1, grows d d1 -> d_params d1 = true /\ d_recomp d1 = Some n.
+Proof. intros d1 [C _]. unfold core in C. inversion C. split; congruence. Qed.
+
+(* the entry x <> k being stepped: its new path is not n, and it is not n *)
+Lemma other_target : forall d1 w x dx nx, active w x dx nx -> x <> k -> P1 k d1 n w \/ P2 k d1 n w -> nx <> n /\ x <> n.
+Proof.
+  intros d1 w x dx nx (Lx & _ & Rx & _) Hx H.
+  assert (U : unc n k w) by (destruct H as [(_ & _ & U)|(d' & _ & _ & _ & U)]; exact U).
+  split.
+  - intros ->. apply Hx. exact (U x dx Lx Rx).
+  - intros ->. destruct H as [(_ & [Ln|Ln] & _)|(d' & _ & Ln & _)]; rewrite Lx in Ln; discriminate.
+Qed.
+Lemma other_target3 : forall d1 w x dx nx, grows d d1 -> active w x dx nx -> P3 k d1 n w -> nx <> n /\ x <> n.
+Proof.
+  intros d1 w x dx nx G (Lx & _ & Rx & Ix) (d' & Ln & Gd & U).
+  destruct (grows_hyps d1 G) as [P1' R1'].
+  assert (Hxn : x <> n).
+  { intros ->. rewrite Ln in Lx. inversion Lx; subst dx.
+    destruct (good_recomp k d1 n P1' R1' d' Gd) as [Rd _]. rewrite Rd in Rx. inversion Rx; subst nx. apply Ix; reflexivity. }
+  split; [|exact Hxn]. intros ->. apply Hxn. exact (U x dx Lx Rx).
+Qed.
+
+(* an interruption inside an iteration keeps the situation *)
+Lemma partial_inv : forall w x wi, wf w -> inv w -> In wi (partials cl w x) -> wf wi /\ inv wi.
+Proof.
+  intros w x wi Hw (d1 & G & D & H) Hin.
+  destruct (partials_cases cl w x wi Hin) as (dx & nx & A & Hwi).
+  destruct (grows_hyps d1 G) as [P1' R1'].
+  assert (Generic : forall wi', benign n x w wi' -> x <> n ->
+            (x <> k \/ (cl = true /\ P3 k d1 n w)) -> wf wi' /\ inv wi').
+  { intros wi' B Hxn Hxk. split; [destruct B as [W _]; exact W|]. exists d1. split; [exact G|]. split; [exact D|].
+    destruct H as [H|[H|[C H]]].
+    - left. destruct Hxk as [Hxk|[_ H3]]; [eapply benign_P1; eauto|].
+      destruct H as (Lk & _). destruct H3 as (d' & Ln & _ & U3). exfalso.
+      assert (k = n) by (apply (U3 k d1 Lk R1')). subst. apply Hi; reflexivity.
+    - right; left. destruct Hxk as [Hxk|[_ H3]]; [eapply benign_P2; eauto|].
+      destruct H as (d' & Lk & Ln & _). destruct H3 as (d3 & Ln3 & _). rewrite Ln in Ln3. discriminate.
+    - right; right. split; [exact C|]. eapply benign_P3; eauto. }
+  destruct (key_eqb x k) eqn:Exk.
+  - (* the entry of the job itself *)
+    apply key_eqb_eq in Exk; subst x.
+    destruct H as [H|[H|[C H]]].
+    + (* not yet repaired: active with (d1, n) *)
+      destruct H as (Lk & Ln & U).
+      destruct A as (Lx & _ & Rx & _). rewrite Lk in Lx. inversion Lx; subst dx. rewrite R1' in Rx. inversion Rx; subst nx.
+      assert (Epre : pre w n = w).
+      { destruct Ln as [Ln|Ln]; [unfold pre, is_link; rewrite Ln; reflexivity|].
+        apply pre_exists. unfold exists_. rewrite (resolve_link _ _ _ _ Ln Lk). reflexivity. }
+      rewrite Epre in Hwi.
+      assert (Hkn : k <> n) by (intros E; apply Hi; rewrite E; reflexivity).
+      destruct Hwi as [->|[RS [[C ->]|[C ->]]]].
+      * split; [exact Hw|]. exists d1. split; [exact G|]. split; [exact D|]. left. repeat split; assumption.
+      * (* cleanup: aliased, not yet moved *)
+        assert (Ln0 : lookup n w = None).
+        { destruct Ln as [Ln|Ln]; [exact Ln|]. rewrite (resolve_link _ _ _ _ Ln Lk) in RS. discriminate. }
+        split; [apply wf_update_dir; exact Hw|].
+        exists (alias (k_name k) (k_name n) d1).
+        split; [eapply grows_trans; [exact G|apply alias_grows]|].
+        split; [intros Hd; destruct (alias_grows (k_name k) (k_name n) d1) as [_ I]; apply I, D, Hd|].
+        left. split; [rewrite lookup_update_dir, key_eqb_refl, Lk; reflexivity|].
+        split; [left; rewrite lookup_update_other by congruence; exact Ln0|].
+        intros y dy L R. rewrite lookup_update_dir in L. destruct (key_eqb k y) eqn:E; [apply key_eqb_eq in E; auto|].
+        exact (U y dy L R).
+      * (* link mode: linked, not yet aliased *)
+        assert (Ln0 : lookup n w = None).
+        { destruct Ln as [Ln|Ln]; [exact Ln|]. rewrite (resolve_link _ _ _ _ Ln Lk) in RS. discriminate. }
+        split; [apply wf_add_link; assumption|].
+        exists d1. split; [exact G|]. split; [exact D|]. left.
+        split; [rewrite lookup_add_link, Lk; reflexivity|].
+        split; [right; rewrite lookup_add_link, Ln0, key_eqb_refl; reflexivity|].
+        intros y dy L R. rewrite lookup_add_link in L.
+        destruct (lookup y w) as [e|] eqn:Ly; [inversion L; subst e; exact (U y dy Ly R)|].
+        destruct (key_eqb n y); discriminate.
+    + (* linked: the new path exists, the only modification left is the alias *)
+      destruct H as (d' & Lk & Ln & Gd & U).
+      destruct (good_recomp k d1 n P1' R1' d' Gd) as [Rd' Pd'].
+      destruct A as (Lx & _ & Rx & _). rewrite Lk in Lx. inversion Lx; subst dx. rewrite Rd' in Rx. inversion Rx; subst nx.
+      assert (Rn : resolve w n = Some (k, d')) by (apply (resolve_link _ _ _ _ Ln Lk)).
+      assert (Epre : pre w n = w) by (apply pre_exists; unfold exists_; rewrite Rn; reflexivity).
+      rewrite Epre in Hwi. destruct Hwi as [->|[RS _]]; [|rewrite Rn in RS; discriminate].
+      split; [exact Hw|]. exists d1. split; [exact G|]. split; [exact D|]. right; left. exists d'. split; [exact Lk|]. split; [exact Ln|]. split; [exact Gd|exact U].
+    + (* moved: the entry k is another directory by now *)
+      destruct (other_target3 d1 w k dx nx G A H) as [Hn Hxn].
+      destruct Hwi as [->|[RS [[C' ->]|[C' ->]]]].
+      * apply Generic; [apply benign_pre; assumption|exact Hxn|right; split; assumption].
+      * apply Generic; [apply benign_alias; assumption|exact Hxn|right; split; assumption].
+      * rewrite (act_link_partial _ _ _ RS). apply Generic; [eapply benign_link; eauto|exact Hxn|right; split; assumption].
+  - apply key_eqb_neq in Exk.
+    assert (T : nx <> n /\ x <> n).
+    { destruct H as [H|[H|[C H]]]; [eapply other_target; eauto|eapply other_target; eauto|eapply other_target3; eauto]. }
+    destruct T as [Hn Hxn].
+    destruct Hwi as [->|[RS [[C' ->]|[C' ->]]]].
+    + apply Generic; [apply benign_pre; assumption|exact Hxn|left; exact Exk].
+    + apply Generic; [apply benign_alias; assumption|exact Hxn|left; exact Exk].
+    + rewrite (act_link_partial _ _ _ RS). apply Generic; [eapply benign_link; eauto|exact Hxn|left; exact Exk].
+Qed.
+
+(* complete iterations keep the situation too *)
+Lemma step_inv : forall w x, wf w -> inv w -> inv (main_step true true cl w x).
+Proof.
+  intros w x Hw (d1 & G & D & H). destruct (grows_hyps d1 G) as [P1' R1'].
+  exists d1. split; [exact G|]. split; [exact D|].
+  destruct H as [H|[H|[C H]]].
+  - destruct (key_eqb x k) eqn:E.
+    + apply key_eqb_eq in E; subst x. destruct (step_P1_self cl k d1 n P1' R1' Hi w Hw H) as [H2|[C H3]]; [right; left; exact H2|right; right; split; assumption].
+    + apply key_eqb_neq in E. left. apply step_P1_other; assumption.
+  - right; left. apply step_P2; assumption.
+  - right; right. split; [exact C|]. apply step_P3; assumption.
+Qed.
+Lemma pass_inv : forall o w, wf w -> inv w -> wf (mainpass true true cl w o) /\ inv (mainpass true true cl w o).
+Proof.
+  unfold mainpass. induction o as [|x o IH]; intros w Hw H; cbn [fold_left]; [split; assumption|].
+  apply IH; [apply wf_step; exact Hw|apply step_inv; assumption].
+Qed.
+
+(* the first loop of a second run *)
+Lemma prepass_step_P2 : forall d1 w x, wf w -> P2 k d1 n w ->
+  P2 k d1 n (prepass_step w x) \/ exists d', good k d1 n d' /\ P1 k d' n (prepass_step w x).
+Proof.
+  intros d1 w x Hw (d' & Lk & Ln & Gd & U).
+  destruct (prepass_step_cases w x) as [->|(_ & El & _ & ->)]; [left; exists d'; split; [exact Lk|]; split; [exact Ln|]; split; [exact Gd|exact U]|].
+  assert (U' : unc n k (unlink x w)).
+  { intros y dy L R. apply (U y dy); [|exact R]. destruct (key_eqb y x) eqn:E.
+    - apply key_eqb_eq in E; subst y. rewrite lookup_unlink_self in L by assumption. discriminate.
+    - apply key_eqb_neq in E. rewrite lookup_unlink_other in L by exact E. exact L. }
+  destruct (key_eqb x n) eqn:E.
+  - apply key_eqb_eq in E; subst x. right. exists d'. split; [exact Gd|].
+    split; [apply lookup_unlink_dir; exact Lk|]. split; [left; apply lookup_unlink_self; assumption|exact U'].
+  - apply key_eqb_neq in E. left. exists d'. split; [apply lookup_unlink_dir; exact Lk|].
+    split; [rewrite lookup_unlink_other by congruence; exact Ln|]. split; [exact Gd|exact U'].
+Qed.
+Lemma prepass_step_P3 : forall d1 w x, wf w -> P3 k d1 n w -> P3 k d1 n (prepass_step w x).
+Proof.
+  intros d1 w x Hw (d' & Ln & Gd & U).
+  destruct (prepass_step_cases w x) as [->|(_ & El & _ & ->)]; [exists d'; split; [exact Ln|]; split; [exact Gd|exact U]|].
+  exists d'. split; [apply lookup_unlink_dir; exact Ln|]. split; [exact Gd|].
+  intros y dy L R. apply (U y dy); [|exact R]. destruct (key_eqb y x) eqn:E.
+  - apply key_eqb_eq in E; subst y. rewrite lookup_unlink_self in L by assumption. discriminate.
+  - apply key_eqb_neq in E. rewrite lookup_unlink_other in L by exact E. exact L.
+Qed.
+
+(* the conclusion of fix_reaches, for the original content d *)
+Definition reached (w : ws) : Prop :=
+  exists kf d', resolve w n = Some (kf, d') /\ core d' = core d /\ incl (d_done d) (d_done d') /\
+                (In (k_name k) (d_done d) -> found w n = true).
+
+Lemma repaired_reached : forall d1 w, grows d d1 -> (In (k_name k) (d_done d) -> In (k_name k) (d_done d1)) ->
+  repaired cl k d1 n w -> reached w.
+Proof.
+  intros d1 w [C I] D H. destruct (repaired_reaches cl k d1 n w H) as (kf & d' & R & C' & I' & F & _).
+  exists kf, d'. split; [exact R|]. split; [congruence|]. split; [intros z Hz; apply I', I, Hz|]. intros Hd. apply F, D, Hd.
+Qed.
+
+(* a complete run from any such situation repairs the job *)
+Lemma rerun_reaches : forall o1 o2 w, wf w -> inv w -> (forall y dy, lookup y w = Some (Dir dy) -> In y o2) ->
+  reached (fix_ws true cl o1 o2 w).
+Proof.
+  intros o1 o2 w Hw (d1 & G & D & H) Hcov. destruct (grows_hyps d1 G) as [P1' R1'].
+  unfold fix_ws, run. cbn [negb orb andb]. rewrite andb_true_r.
+  assert (FromP1 : forall d2 w0, grows d d2 -> (In (k_name k) (d_done d) -> In (k_name k) (d_done d2)) ->
+             wf w0 -> P1 k d2 n w0 -> In k o2 -> reached (mainpass true true cl w0 o2)).
+  { intros d2 w0 G2 D2 W0 H0 Hin. destruct (grows_hyps d2 G2) as [P2' R2'].
+    apply (repaired_reached d2 _ G2 D2). apply pass_repairs; assumption. }
+  assert (FromRep : forall w0, wf w0 -> repaired cl k d1 n w0 -> reached (mainpass true true cl w0 o2)).
+  { intros w0 W0 H0. apply (repaired_reached d1 _ G D). apply pass_repaired; assumption. }
+  destruct cl eqn:Ecl.
+  - (* cleanup: the first loop runs *)
+    destruct H as [H|[H|[_ H]]].
+    + destruct (prepass_P1 k d1 n o1 w Hw H) as [W1 H1]. apply (FromP1 d1); try assumption.
+      destruct H as (Lk & _). exact (Hcov k d1 Lk).
+    + assert (Hin : In k o2) by (destruct H as (d' & Lk & _); exact (Hcov k d' Lk)).
+      assert (Q : forall o w0, wf w0 -> P2 k d1 n w0 ->
+                wf (prepass w0 o) /\ (P2 k d1 n (prepass w0 o) \/ exists d', good k d1 n d' /\ P1 k d' n (prepass w0 o))).
+      { unfold prepass. induction o as [|x o IH]; intros w0 W0 H0; cbn [fold_left]; [split; [exact W0|left; exact H0]|].
+        destruct (prepass_step_P2 d1 w0 x W0 H0) as [H2|(d' & Gd & H1)].
+        - apply IH; [apply wf_prepass_step; exact W0|exact H2].
+        - destruct (prepass_P1 k d' n o (prepass_step w0 x) (wf_prepass_step _ _ W0) H1) as [W2 H2].
+          split; [exact W2|right; exists d'; split; assumption]. }
+      destruct (Q o1 w Hw H) as [W1 [H2|(d' & [Gd Dd] & H1)]].
+      * apply FromRep; [exact W1|left; exact H2].
+      * apply (FromP1 d'); try assumption.
+        -- eapply grows_trans; eassumption.
+        -- intros Hd. destruct Gd as [_ I]. apply I, D, Hd.
+    + assert (Q : forall o w0, wf w0 -> P3 k d1 n w0 -> wf (prepass w0 o) /\ P3 k d1 n (prepass w0 o)).
+      { unfold prepass. induction o as [|x o IH]; intros w0 W0 H0; cbn [fold_left]; [split; assumption|].
+        apply IH; [apply wf_prepass_step; exact W0|apply prepass_step_P3; assumption]. }
+      destruct (Q o1 w Hw H) as [W1 H3]. apply FromRep; [exact W1|right; split; [reflexivity|exact H3]].
+  - destruct H as [H|[H|[C _]]]; [|apply FromRep; [exact Hw|left; exact H]|discriminate].
+    apply (FromP1 d1); try assumption. destruct H as (Lk & _). exact (Hcov k d1 Lk).
+Qed.
+End Interrupted.
+
+Lemma in_prefixes_app : forall {A} (p l : list A), In p (prefixes l) -> exists q, l = p ++ q.
+Proof.
+  intros A p l. revert p. induction l as [|x l IH]; intros p Hin; cbn [prefixes] in Hin.
+  - destruct Hin as [<-|[]]. exists []. reflexivity.
+  - destruct Hin as [<-|Hin]; [exists (x :: l); reflexivity|].
+    apply in_map_iff in Hin. destruct Hin as (p' & <- & Hp'). destruct (IH p' Hp') as [q ->]. exists q. reflexivity.
+Qed.
+
+(* AFTER ANY INTERRUPTED REPAIR THE JOB IS STILL THERE, AND A SECOND RUN COMPLETES THE REPAIR.  w: any workspace; k: a
+   directory stored under a former identifier whose new path n is free or already links to it and is claimed by no other
+   directory (the hypotheses of fix_reaches); the command (either mode, any examination orders) is interrupted anywhere - wi;
+   it is then run again, to its end, examining every directory: n leads to the data of k, and a re-submit finds the result. *)
+Theorem interrupted_then_rerun_reaches : forall cl o1 o2 w k d n wi o1' o2',
+  wf w -> active w k d n ->
+  (lookup n w = None \/ lookup n w = Some (Link k)) ->
+  (forall k2 d2, lookup k2 w = Some (Dir d2) -> d_recomp d2 = Some n -> k2 = k) ->
+  In wi (interrupted cl o1 o2 w) ->
+  (forall y dy, lookup y wi = Some (Dir dy) -> In y o2') ->
+  let w' := fix_ws true cl o1' o2' wi in
+  exists kf d', resolve w' n = Some (kf, d') /\ core d' = core d /\ incl (d_done d) (d_done d') /\
+                (In (k_name k) (d_done d) -> found w' n = true).
+Proof.
+  intros cl o1 o2 w k d n wi o1' o2' Hw (L & P & R & I) Hfree Hunc Hin Hcov.
+  assert (H0 : inv cl k d n w).
+  { exists d. split; [apply grows_refl|]. split; [auto|]. left. repeat split; assumption. }
+  assert (Hwi : wf wi /\ inv cl k d n wi).
+  { unfold interrupted in Hin. apply in_app_or in Hin. destruct Hin as [Hin|Hin].
+    - destruct cl; [|destruct Hin]. apply in_map_iff in Hin. destruct Hin as (p & <- & _).
+      destruct (prepass_P1 k d n p w Hw) as [W1 H1]; [repeat split; assumption|].
+      split; [exact W1|]. exists d. split; [apply grows_refl|]. split; [auto|]. left. exact H1.
+    - apply in_flat_map in Hin. destruct Hin as (pr & _ & Hin).
+      set (w0 := if cl then prepass w o1 else w) in *.
+      assert (W0 : wf w0 /\ inv cl k d n w0).
+      { unfold w0. destruct cl; [|split; assumption].
+        destruct (prepass_P1 k d n o1 w Hw) as [W1 H1]; [repeat split; assumption|].
+        split; [exact W1|]. exists d. split; [apply grows_refl|]. split; [auto|]. left. exact H1. }
+      destruct W0 as [W0 I0].
+      destruct (pass_inv cl k d n P R I pr w0 W0 I0) as [W1 I1].
+      destruct Hin as [<-|Hin]; [split; assumption|].
+      destruct (nth_error o2 (length pr)) as [x|]; [|destruct Hin].
+      apply (partial_inv cl k d n P R I _ x wi W1 I1 Hin). }
+  destruct Hwi as [Wi Ii].
+  exact (rerun_reaches cl k d n P R I o1' o2' wi Wi Ii Hcov).
+Qed.
+
+(* ... and no interruption loses job data: the directories of an interrupted state are those of the workspace, each with
+   the same payload / params.json / recomputed identity and at least the same .done markers                          *)
+Lemma partials_dirs : forall cl w x wi, In wi (partials cl w x) -> Forall2 grows (dirs w) (dirs wi).
+Proof.
+  intros cl w x wi Hin. destruct (partials_cases cl w x wi Hin) as (dx & nx & _ & Hwi).
+  assert (Epre : dirs (pre w nx) = dirs w).
+  { destruct (pre_cases w nx) as [->|(_ & _ & ->)]; [reflexivity|apply dirs_unlink]. }
+  destruct Hwi as [->|[_ [[_ ->]|[_ ->]]]].
+  - rewrite Epre. apply F2_grows_refl.
+  - rewrite <- Epre. apply dirs_update. intros d0. apply alias_grows.
+  - rewrite dirs_add_link, Epre. apply F2_grows_refl.
+Qed.
+Theorem interrupted_preserves_data : forall cl o1 o2 w wi,
+  In wi (interrupted cl o1 o2 w) -> Forall2 grows (dirs w) (dirs wi).
+Proof.
+  intros cl o1 o2 w wi Hin. unfold interrupted in Hin. apply in_app_or in Hin. destruct Hin as [Hin|Hin].
+  - destruct cl; [|destruct Hin]. apply in_map_iff in Hin. destruct Hin as (p & <- & _). rewrite prepass_dirs. apply F2_grows_refl.
+  - apply in_flat_map in Hin. destruct Hin as (pr & _ & Hin).
+    assert (E0 : Forall2 grows (dirs w) (dirs (mainpass true true cl (if cl then prepass w o1 else w) pr))).
+    { eapply F2_grows_trans; [|apply mainpass_dirs]. destruct cl; [rewrite prepass_dirs|]; apply F2_grows_refl. }
+    destruct Hin as [<-|Hin]; [exact E0|].
+    destruct (nth_error o2 (length pr)) as [x|]; [|destruct Hin].
+    eapply F2_grows_trans; [exact E0|eapply partials_dirs; eauto].
+Qed.
+
+(* ---- records.  (1) the order of the commit that introduced the aliases - the directory is moved, THEN its result files
+   are aliased: an interruption in between leaves the directory under its new identifier without the aliases, and no later
+   run looks at it again (it sits under its own identifier): the result of a renamed task is never found.  With the order
+   of the repaired command (fixes/C20-6) every interruption point of the same workspace is completed by the next run. *)
+Theorem moved_first_refuted :
+  In (rename xk xn xw) (partials_moved_first xw xk) /\
+  found (fix_ws true true [xn] [xn] (rename xk xn xw)) xn = false /\
+  forall cl wi, In wi (interrupted cl [xk] [xk] xw) -> found (fix_ws true cl [xk; xn] [xk; xn] wi) xn = true.
+Proof.
+  split; [left; reflexivity|]. split; [reflexivity|].
+  intros cl wi Hin. destruct cl; cbn in Hin; repeat (destruct Hin as [<-|Hin]; [reflexivity|]); destruct Hin.
+Qed.
+
+(* (2) params.json rewritten IN PLACE (no params.json.tmp + replace): an interruption during the write leaves a record that
+   cannot be loaded any more (the real command even stops there with a JSONDecodeError): the record of the job is lost -
+   not a state of `interrupted`, whose states all keep it (interrupted_preserves_data) - and no later run repairs the job *)
+Definition unreadable (d : data) : data := mkdata (d_mark d) (d_params d) None (d_done d).
+Theorem inplace_write_refuted :
+  let wi := update_dir xk unreadable xw in
+  map core (dirs wi) <> map core (dirs xw) /\
+  (forall cl, ~ In wi (interrupted cl [xk] [xk] xw)) /\
+  forall cl, found (fix_ws true cl [xk] [xk] wi) xn = false.
+Proof.
+  split; [cbn; intros E; discriminate E|]. split.
+  - intros cl Hin. pose proof (interrupted_preserves_data cl [xk] [xk] xw _ Hin) as F.
+    cbn in F. inversion F as [|? ? ? ? [C _] _]; subst. cbn in C. discriminate C.
+  - intros [|]; reflexivity.
+Qed.
+
+(* the hypotheses of interrupted_then_rerun_reaches are satisfiable: the workspace xw, interrupted after the aliasing (cleanup) *)
+Example interrupted_hyps_sat :
+  wf xw /\ active xw xk xd xn /\ lookup xn xw = None /\
+  In (update_dir xk (alias (k_name xk) (k_name xn)) xw) (interrupted true [xk] [xk] xw) /\
+  (forall y dy, lookup y (update_dir xk (alias (k_name xk) (k_name xn)) xw) = Some (Dir dy) -> In y [xk]).
+Proof.
+  destruct xw_hyps as (W & A & _ & F & _). split; [exact W|]. split; [exact A|]. split; [exact F|].
+  split; [cbn; tauto|]. intros y dy L. cbn in L. destruct (key_eqb xk y) eqn:E; [|discriminate].
+  apply key_eqb_eq in E. left; exact E.
+Qed.
+Close Scope Z_scope.
